@@ -242,6 +242,30 @@ func runConv(c *Ctx) {
 	if n < 8 {
 		c.Undecided("conversion calls", token.NoPos, "only %d conversion calls found in row.go", n)
 	}
+	// every destination is handled: the loop of Row.Scan ranges over the whole argument list
+	if scan := p.Func(".", "(Row).Scan"); scan != nil {
+		tt := &Termer{P: p}
+		okRange := false
+		hs := loopHeaders(scan)
+		for _, h := range hs {
+			for _, in := range h.Instrs {
+				bo, ok := in.(*ssa.BinOp)
+				if !ok || bo.Op != token.LSS {
+					continue
+				}
+				if tt.Term(bo.Y, emptyPS()) == "len(p:"+scan.Params[1].Name()+")" {
+					okRange = true
+				}
+			}
+		}
+		// and the argument slice is not re-assigned / re-sliced before the loop
+		for _, in := range instrs(scan) {
+			if sl, ok := in.(*ssa.Slice); ok && resolveCell(sl.X) == ssa.Value(scan.Params[1]) {
+				okRange = false
+			}
+		}
+		c.Check(len(hs) == 1 && okRange, "Scan handles every destination", scan.Pos(), "Row.Scan converts into every destination it is given (the loop covers the whole argument list): destinations beyond the row's width get the zero value, unsupported ones an error")
+	}
 	// missing columns / NULL give the zero value: every scan helper returns its zero on the `len(r) <= i` edge
 	t := &Termer{P: p}
 	for _, name := range []string{"scanString", "scanBytes", "scanInt64", "scanFloat64", "scanTime"} {
